@@ -215,13 +215,12 @@ theorem source_counts_tie (pp : PP) (s : Section) :
 
 
 /-- **insert_rr of the current source text.**  `Tr.Counts.insert_rr` is `ParsedPacket::insert_rr` as re-translated from
-/repo/src/parsed_packet.rs on every run (with `rrcount_inc`, `insertion_offset`, the `set_*count` writers; `Compress::uncompress`
-and `recompute` are the model's): on an object that needs no decompression and whose section starts lie inside the packet it computes
+/repo/src/parsed_packet.rs on every run (with `rrcount_inc`, `insertion_offset`, the `set_*count` writers and `recompute`; `Compress::uncompress` is the model's): on an object that needs no decompression and whose section starts lie inside the packet it computes
 what the model's `insertRR` computes — a refusal of the model being an error of the source (`Tie/Insert.lean`, where
 `insert_rr_compressed` does the same for the path through decompression). -/
 theorem source_insert_rr (pp : PP) (s : Section) (rr : Bytes) (hmc : pp.maybeCompressed = false) (hoff : Tie.OffOK pp) :
     Tr.Counts.insert_rr pp.packet pp.offsetQuestion pp.offsetAnswers pp.offsetNameservers pp.offsetAdditional pp.offsetEdns
-        pp.ednsCount pp.extRcode pp.ednsVersion pp.extFlags pp.maybeCompressed pp.maxPayload pp.cached s rr
+        pp.ednsCount pp.extRcode pp.ednsVersion pp.extFlags pp.maybeCompressed pp.cached s rr
       = (insertRR pp s rr >>= Tie.insFinish) :=
   Tie.insert_rr_plain pp s rr hmc hoff
 
